@@ -83,13 +83,13 @@ CLAIMED = {
         ref='DESIGN.md section 4 C18'),
     "C13": dict(
         technique="Coq proof over an executable model of walk_tree/_traverse_tree/printer + model/implementation correspondence",
-        text=("coq/props/C13.v (14 theorems): TOTALITY ON DUMPS (first clause) as a theorem on the C05 fragment: for every value in c05_guard (containers, dict family, slices, names, arrays, sparse, dtype, masked, RNGs, partial, bytes / bytearray, rank-1 object arrays; arbitrary sharing), every load environment of that archive and EVERY trusted list, the row generator, show=all and show=untrusted complete, show=untrusted prints exactly the rows that are not fully safe, and show=trusted completes when every row below the root is self-safe (C13_total_on_dumps_partial; proof: the tree built from a dumped state is ranked -- every object above its parts -- hence acyclic with bounded reference depth, every reference resolves, the audit of every node completes independently of fuel and call stack, the walk yields a safe-closed pre-order forest, which _traverse_tree accepts whenever the hidden rows are exactly the fully safe ones); for show=trusted it is refuted with a computed witness ([functools.partial(np.add, 1)]: finding D24). AGREEMENT WITH THE AUDIT: whenever visualize completes (any archive, any trusted list, any show mode) what reaches the printer is the root row followed by rows each at most one level "
-              "deeper than the previous one, and only rows the filter admits; every row carries the audit's own verdicts for its node (is_self_safe, and fully-safe iff the graph audit "
+        text=("coq/props/C13.v (15 theorems): TOTALITY ON DUMPS (first clause) as a theorem on the C05 fragment: for every value in c05_guard (containers, dict family, slices, names, arrays, sparse, dtype, masked, RNGs, partial, bytes / bytearray, rank-1 object arrays; arbitrary sharing), every load environment of that archive, EVERY trusted list and ALL THREE show modes, the row generator and the default sink complete (C13_total_on_dumps_partial; D24 repaired in /repo: _traverse_tree skips everything below a hidden node); what is printed is the root row followed by the pre-order forest of rows with the subtree of every hidden row cut off: show=all everything, show=untrusted exactly the rows that are not fully safe, show=trusted the rows whose own type is trusted and whose ancestors below the root all are (proof: the tree built from a dumped state is ranked -- every object above its parts -- hence acyclic with bounded reference depth, every reference resolves, the audit of every node completes independently of fuel and call stack, the walk yields a safe-closed pre-order forest). MODE-INDEPENDENT WELL-FORMEDNESS: on EVERY pre-order row stream (each row at most one level below its predecessor) and every filter, _traverse_tree never raises its level-difference ValueError and prints again such a stream (C13_preorder_never_raises); on ANY row list a completed run printed exactly `shown` of the rows (C13_filter_respected); on a forest that is the forest with hidden subtrees pruned, a row is printed iff the filter admits it and all its ancestors (C13_hidden_subtrees_cut). AGREEMENT WITH THE AUDIT: whenever visualize completes (any archive, any trusted list, any show mode) what reaches the printer is the root row followed by rows each at most one level "
+              "deeper than the previous one; every row carries the audit's own verdicts for its node (is_self_safe, and fully-safe iff the graph audit "
               "below it reports nothing); the root row is fully safe iff get_untrusted_types is empty for that trust setting; a row is tagged [UNSAFE] iff its own type is untrusted; "
-              "a node of any kind except the protocol-0 FunctionNode that is not self-safe is never fully safe (C13_self_unsafe_not_safe); the former D31-SliceNode witness is reported (C13_slice_name_reported: get_untrusted_types = [x.y], load refuses, row and ancestors not fully safe). The model (lazy row stream, key_types special case, SKIPPED kinds from the snapshot, Ref/cycle unrolling, the plain-text printer) "
-              "is compared with /repo on generated valid+malformed archives x trusted x show (printed text and raw rows). Totality on real dumps is checked on generated values x 3 trust settings x 3 show modes."),
-        note=("Trusted: Coq kernel; snapshot (SKIPPED_TYPES); generator, runner. rich is absent here: colours not exercised. Open findings: D24 (show='trusted' level jump), D15c (key named key_types), "
-              "D31-FunctionNode@0 (the protocol-0 FunctionNode displays a name its audit ignores). D15 (slices, bound methods, state-less objects), D32 (untrusted key types) and D31-SliceNode (SliceNode.get_unsafe_set now reports the type the node names) were repaired in /repo."),
+              "a node of any kind except the protocol-0 FunctionNode that is not self-safe is never fully safe (C13_self_unsafe_not_safe); the former D31-SliceNode witness is reported (C13_slice_name_reported: get_untrusted_types = [x.y], load refuses, row and ancestors not fully safe); the former D24 witness ([functools.partial(np.add, 1)], show=trusted) is computed to completion (C13_trusted_witness_repaired). The model (lazy row stream, hidden_level state, key_types special case, SKIPPED kinds from the snapshot, Ref/cycle unrolling, the plain-text printer) "
+              "is compared with /repo on generated valid+malformed archives x trusted x show (printed text and raw rows); an oracle on the implementation's own output requires that a completed pre-order row stream never makes the default sink raise and that the printed lines are the rows admitted together with all their ancestors. Totality on real dumps is checked on generated values x 3 trust settings x 3 show modes (all nine required), visualized before and whatever load says."),
+        note=("Trusted: Coq kernel; snapshot (SKIPPED_TYPES); generator, runner. rich is absent here: colours not exercised. Open findings: "
+              "D31-FunctionNode@0 (the protocol-0 FunctionNode displays a name its audit ignores), C13-F1 (rank-0 object arrays are dumped with a non-list content: visualize / get_untrusted_types / load raise AttributeError). D15 (slices, bound methods, state-less objects), D15c (key named key_types), D32 (untrusted key types), D31-SliceNode and D24 (show='trusted' level jump) were repaired in /repo."),
         ref="DESIGN.md section 4 C13"),
     "C01": dict(
         technique="Coq proof (audit examines every node; every archive-named resolution is vouched) + traced-load correspondence + canary search",
